@@ -88,9 +88,10 @@ class FallbackClient:
     def gets(self, key):
         for cache in self.caches:
             result = cache.gets(key)
-            if result is not None:
+            # A miss from Client.gets is the pair (None, None), not None.
+            if result is not None and result[0] is not None:
                 return result
-        return None
+        return (None, None)
 
     def gets_many(self, keys):
         for cache in self.caches:
